@@ -56,3 +56,19 @@ end XM
 instance : XM.Conj Float := ⟨id⟩
 instance : Zero Float := ⟨0.0⟩
 instance : XM.Entry Float Float := { ofReal := id, divReal := fun x r => x / r, normSq := fun x => x * x }
+
+/-- complex doubles: the executable model's second entry type (numpy's complex128 arithmetic) -/
+structure XM.CF where
+  re : Float
+  im : Float
+deriving Inhabited
+
+namespace XM.CF
+instance : Add CF := ⟨fun a b => ⟨a.re + b.re, a.im + b.im⟩⟩
+instance : Sub CF := ⟨fun a b => ⟨a.re - b.re, a.im - b.im⟩⟩
+instance : Mul CF := ⟨fun a b => ⟨a.re * b.re - a.im * b.im, a.re * b.im + a.im * b.re⟩⟩
+instance : Zero CF := ⟨⟨0.0, 0.0⟩⟩
+instance : XM.Conj CF := ⟨fun a => ⟨a.re, -a.im⟩⟩
+instance : XM.Entry Float CF :=
+  { ofReal := fun x => ⟨x, 0.0⟩, divReal := fun a r => ⟨a.re / r, a.im / r⟩, normSq := fun a => a.re * a.re + a.im * a.im }
+end XM.CF
